@@ -7,9 +7,12 @@
    100 holds NRand longer texts drawn with RandomElement (TLC -seed), chunk 200
    the texts of file InFile (repository YANG texts cut at random points), chunk
    300 modules full of distinct string concatenations, chunk 400 complete modules
-   with one shape-correct but absurd argument each.                             *)
+   with one shape-correct but absurd argument each, chunk 500 complete modules that
+   break (or just keep) a rule relating two statements, chunks 601.. characters that
+   alias structural ASCII characters or are blanks to Unicode only, in every lexer
+   state, chunk 700 texts starting with a byte order mark.                             *)
 EXTENDS YangLexer, Json, SequencesExt, FiniteSets, TLC
-CONSTANTS Alphabet, MaxLen, Variants, NRand, RandLen, InFile, NCatTexts, NCat
+CONSTANTS Alphabet, MaxLen, Variants, NRand, RandLen, InFile, NCatTexts, NCat, AliasWide
 VARIABLES chunk, done
 
 Alpha == SetToSeq(Alphabet)
@@ -30,8 +33,11 @@ Respell(t, v) == [i \in 1..Len(t) |-> Spell(t[i], v)]
 
 TextsFrom(c) == UNION {{<<c>> \o r : r \in [1..n -> Alphabet]} : n \in 0..(MaxLen - 1)}
 \* longer texts: characters that make structure are drawn more often
-Weighted == <<97, 97, 97, 32, 32, 10, 34, 34, 39, 92, 123, 123, 125, 125, 59, 59, 43, 47, 47, 47, 42, 42, 233, 13, 1114367>>
-RandTexts(u_) == [k \in 1..NRand |-> [i \in 1..RandomElement(1..RandLen) |-> Weighted[RandomElement(1..Len(Weighted))]]]
+\* (0 stands for one of the characters that are ordinary to YANG but alias a structural character or a Unicode blank)
+Weighted == <<97, 97, 97, 32, 32, 10, 34, 34, 39, 92, 123, 123, 125, 125, 59, 59, 43, 47, 47, 47, 42, 42, 233, 13, 1114367, 0, 0>>
+AliasAll == UNION {AliasesAt(AliasOffsets[k]) : k \in 1..Len(AliasOffsets)} \cup UniBlanks
+RandTexts(u_) == [k \in 1..NRand |-> [i \in 1..RandomElement(1..RandLen) |->
+                   LET w == Weighted[RandomElement(1..Len(Weighted))] IN IF w = 0 THEN RandomElement(AliasAll) ELSE w]]
 
 \* where the text ends, in terms of the lexer: the state function that meets the end of the text
 \* (read off the machine that does not treat the end as a terminator, so that "inside a word" shows)
@@ -108,6 +114,67 @@ Absurd == << "", "0", "00", "13", "99", "0000", "-0", "-1", "+5", "007", "0x10",
 HoleText(h, v) == HoleHead \o S2C(h[1]) \o S2C(v) \o S2C(h[2]) \o <<LF>> \o S2C("}") \o <<LF>>
 PlainLight(t) == [text |-> t, variant |-> 1, lines |-> LineLens(t), bytes |-> SumWidth(t, 1, Len(t)), nitems |-> 0, lastItem |-> "n/a", endsIn |-> "n/a", inBlock |-> FALSE]
 AbsurdCases(u_) == {PlainLight(HoleText(Holes[i], Absurd[j])) : i \in 1..Len(Holes), j \in 1..Len(Absurd)}
+\* chunks 601..: one of the characters that are ordinary to YANG although a careless program may take them for structure
+\* (YangChars!AliasesAt: low 7 / 8 / 16 bits equal to a separator, quote, brace, semicolon, plus, slash, star or backslash, in
+\* every UTF-8 width and plane; UniBlanks: white space to Unicode only), in every lexer state: at the start of a statement,
+\* inside and at the end of a word, as an argument, inside both kinds of quotes, after a backslash, inside both kinds of
+\* comments, after a brace and a semicolon - followed by nothing, a letter, a terminator, a blank, a quote.  Chunk 600 + k
+\* holds offset class k, chunk 600 + Len(AliasOffsets) + 1 the Unicode blanks.
+AliasPre == {<< >>} \cup {<<c>> : c \in Alphabet}
+            \cup {S2C("a "), <<97, DQ>>, <<97, SQ>>, S2C("/*"), S2C("//"), <<DQ, BSL>>, S2C("a{"), S2C("a;"), S2C("a b"), <<97, SP, DQ>>}
+AliasSuf == IF AliasWide THEN {<< >>} \cup {<<c>> : c \in Alphabet} \cup {S2C(" b;"), S2C("*/"), <<DQ, SEMI>>}
+            ELSE {<< >>, S2C("a"), S2C(";"), S2C(" "), <<DQ>>}
+AliasSet(k) == IF k <= Len(AliasOffsets) THEN AliasesAt(AliasOffsets[k]) ELSE UniBlanks
+AliasTexts(k) == {p \o <<x>> \o s : p \in AliasPre, x \in AliasSet(k), s \in AliasSuf}
+NAlias == Len(AliasOffsets) + 1
+\* chunk 700: texts that start with a byte order mark (a file saved as "UTF-8 with signature"), alone, before every class
+\* character and before a complete module.  RFC 6020 does not say whether the mark belongs to the first word, so only what C07
+\* asks of every text is required (these are not traced).
+BomTexts(u_) == {<<BOM>>} \cup {<<BOM, c>> : c \in Alphabet} \cup {<<BOM, c, d>> : c \in Alphabet, d \in Alphabet}
+                \cup {<<BOM>> \o HoleText(Holes[1], "2020-01-01"), <<BOM, BOM>> \o HoleText(Holes[1], "2020-01-01"), <<BOM, LF>> \o HoleText(Holes[1], "x")}
+\* chunk 500: totality reaches the exits that are taken only after the whole text has been lexed and parsed: rules that relate
+\* one statement to another (RFC 6020 6.2.1: a typedef or grouping name must not be defined twice in a scope, must not shadow a
+\* definition of an enclosing scope, a typedef must not take the name of a built-in type; sibling scopes may repeat a name;
+\* typedefs and groupings have separate namespaces; likewise two leafs, containers, identities, features, extensions of one
+\* name, and the order of revisions).  A module with a scope of every kind (module, container, nested container, list,
+\* grouping, container inside a grouping, rpc input, rpc output, notification, end of the module) gets two definitions, at
+\* every pair of places, with equal names, different names and built-in type names.  Complete, well-formed texts: whether a
+\* text is accepted is not judged here (C09), only what C07 asks of every text.  '~' stands for a line feed.
+NL(s) == LET t == S2C(s) IN [i \in 1..Len(t) |-> IF t[i] = 126 THEN LF ELSE t[i]]
+ScopeTpl == << "module m {~ namespace \"urn:m\"; prefix m;~",
+               " container c {~",
+               "  container d {~",
+               "  }~  list l { key k; leaf k { type string; }~",
+               "  }~ }~ grouping g0 {~",
+               "  container e {~",
+               "  }~ }~ rpc r { input {~",
+               "  } output {~",
+               "  } }~ notification n {~",
+               " }~ container f { leaf x { type string; } }~",
+               "}~" >>
+NSlot == Len(ScopeTpl) - 1
+\* (text and line geometry are put together from pieces that end with a line feed, as for chunk 300)
+TplP == [k \in 1..Len(ScopeTpl) |-> Piece(NL(ScopeTpl[k]))]
+NoPiece == [text |-> << >>, lines |-> << >>, bytes |-> 0]
+DefOf(kind, name) == Piece(
+  CASE kind = "typedef" -> NL("   typedef ") \o S2C(name) \o NL(" { type string; }~")
+    [] kind = "grouping" -> NL("   grouping ") \o S2C(name) \o NL(" { leaf y { type string; } }~")
+    [] kind = "leaf" -> NL("   leaf ") \o S2C(name) \o NL(" { type string; }~")
+    [] kind = "container" -> NL("   container ") \o S2C(name) \o NL(";~")
+    [] OTHER -> NL("   ") \o S2C(kind) \o <<SP>> \o S2C(name) \o NL(";~"))
+RECURSIVE FillTpl(_, _)
+\* fill[k]: what goes to slot k
+FillTpl(fill, k) == IF k > NSlot THEN TplP[k] ELSE Join2(Join2(TplP[k], fill[k]), FillTpl(fill, k + 1))
+TwoDefs(i, d1, j, d2) == LightVec(FillTpl([k \in 1..NSlot |-> Join2(IF k = i THEN d1 ELSE NoPiece, IF k = j THEN d2 ELSE NoPiece)], 1))
+NamePairs == {<<"a", "a">>, <<"a", "b">>, <<"string", "string">>, <<"string", "a">>, <<"a", "int32">>, <<"g0", "g0">>}
+ScopeKinds == {<<"typedef", "typedef">>, <<"grouping", "grouping">>, <<"typedef", "grouping">>, <<"grouping", "typedef">>}
+OtherKinds == {<<"leaf", "leaf">>, <<"container", "leaf">>, <<"identity", "identity">>, <<"feature", "feature">>, <<"extension", "extension">>, <<"leaf", "typedef">>}
+RevDates == <<"2020-01-01", "2021-06-30", "2019-12-31">>
+CrossCases(u_) ==
+  {TwoDefs(i, DefOf(k[1], n[1]), j, DefOf(k[2], n[2])) : i \in 1..NSlot, j \in 1..NSlot, k \in ScopeKinds, n \in NamePairs}
+  \cup {TwoDefs(i, DefOf(k[1], n[1]), j, DefOf(k[2], n[2])) : i \in {1, 2, 3, 7, NSlot}, j \in {1, 2, 3, 7, NSlot}, k \in OtherKinds, n \in {<<"a", "a">>, <<"a", "b">>}}
+  \cup {TwoDefs(1, Piece(NL("   revision ") \o S2C(RevDates[a]) \o NL(";~")), 1, Piece(NL("   revision ") \o S2C(RevDates[b]) \o NL(" { description d; }~")))
+         : a \in 1..3, b \in 1..3}
 \* chunk 200: given texts (repository YANG cut at random points), file InFile: records [text]
 Given(u_) == ndJsonDeserialize(InFile)
 
@@ -116,8 +183,11 @@ Cases == IF chunk = 0 THEN {Vec(<< >>, 1)}
          ELSE IF chunk = 200 THEN {Vec(Given(0)[k].text, 1) : k \in 1..Len(Given(0))}
          ELSE IF chunk = 300 THEN {LightVec(CatText(i)) : i \in 1..NCatTexts}
          ELSE IF chunk = 400 THEN AbsurdCases(0)
+         ELSE IF chunk = 500 THEN CrossCases(0)
+         ELSE IF chunk = 700 THEN {PlainLight(t) : t \in BomTexts(0)}
+         ELSE IF chunk > 600 /\ chunk <= 600 + NAlias THEN {Vec(t, 1) : t \in AliasTexts(chunk - 600)}
          ELSE {Vec(t, v) : t \in TextsFrom(Alpha[chunk]), v \in Variants}
-GInit == chunk \in (0..Len(Alpha)) \cup {100, 200, 300, 400} /\ done = FALSE
+GInit == chunk \in (0..Len(Alpha)) \cup {100, 200, 300, 400, 500, 700} \cup (601..(600 + NAlias)) /\ done = FALSE
 GNext == /\ ~done /\ done' = TRUE /\ UNCHANGED chunk
          /\ ndJsonSerialize("vec_" \o ToString(chunk) \o ".ndjson", SetToSeq(Cases))
 =============================================================================
